@@ -1604,6 +1604,15 @@ func (l *lexer) emit(typ int) {
 		}
 	}
 	l.word = nil
+	// a lexer that was cancelled, or has failed by itself, never hands
+	// over another token; without this test both cases below can be
+	// ready and one is chosen at random
+	select {
+	case <-l.cancel:
+		// bailout
+		panic(bailout{})
+	default:
+	}
 	select {
 	case l.token <- tok:
 	case <-l.cancel:
